@@ -68,4 +68,10 @@ Definition entries : list (Z * (data -> data)) :=
     (2011, fun d => elist (fun p => L [I (fst p); I (snd p)])
                           (order_by_id (dmap (fun e => (dZ (dnth 0 e), dZ (dnth 1 e))) d)));
     (2012, fun d => ebool (ok_member_order (dnat (dnth 0 d)) (d_nats (dnth 1 d))));
-    (2013, fun d => e_nats (argsort (d_qs d))) ].
+    (2013, fun d => e_nats (argsort (d_qs d)));
+    (* a sequence of calls on one ensemble: [close_on_failure, [[xs, failed, stop, order] ...]] -> [[0, ys] | [1, []] ...] *)
+    (2014, fun d =>
+       let d_jobs := dmap (fun e => (dZ (dnth 0 e), dZ (dnth 1 e))) in
+       let cs := dmap (fun c => mkCall (dmap dZ (dnth 0 c)) (dbool (dnth 1 c)) (dnat (dnth 2 c)) (d_jobs (dnth 3 c))) (dnth 1 d) in
+       elist (fun o => match o with Returned ys => L [I 0; elist eZ ys] | Raised => L [I 1; L []] end)
+             (run_calls (dbool (dnth 0 d)) (mkEv 0 []) cs)) ].
